@@ -1,5 +1,6 @@
 SPECIFICATION Spec
 CONSTANTS Kinds = {"hmeta"}
+  TextLens = {0, 249, 250, 1000}
   NH = 3 NObj = 2 Max = 6 MaxExtra = 1 MaxTries = 2 AsFound = TRUE
 VIEW View
 INVARIANTS TypeOK AliveIffReferenced CountExact NoDangling ObsAgrees
